@@ -56,6 +56,11 @@ type Engine struct {
 	MaxVisits  int
 	NoMerge    bool
 	EagerFeas  bool
+	CrossEvery   int    // re-decide every n-th assertion query on CrossSolver (0 = off)
+	CrossSolver  string
+	CrossChecked int
+	CrossUnknown int
+	crossCount   int
 	stopOnAssertFail bool
 	Trace      bool
 	uniq       int
